@@ -11,7 +11,7 @@ EXPLANATION = (
     "(SpillManager, AsyncSpillManager, ExternalSort, PartitionedState) has a Drop impl that reaches file removal; "
     "(R2) the spill codec's writer and reader agree (same rule as C16-R4). (R3) the comparator that sorts spilled runs and the one that merges them (found by use) treat direction and NULL placement alike. "
     "(R4) an element pulled from an iterator an operator keeps across calls is used before any return; (R5) what an intermediate push operator collected is forwarded before its stop request is propagated. "
-    "(R6) a partial-result type's merge(self, other) folds in every field that accumulation updates, from the same field of the other side, with the same arithmetic / comparison helper. "
+    "(R7) the spilling sort's key conversion reads every field of the operator's sort keys; (R8) morsel generation walks 0..total in steps of the morsel size with each end capped at total, and a split builds [start,p) and [p,end) from the same p. (R6) a partial-result type's merge(self, other) folds in every field that accumulation updates, from the same field of the other side, with the same arithmetic / comparison helper. "
     "Equality of results across strategies, "
     "worker counts or memory budgets is not decided.")
 ASSUMPTIONS = ["std::fs::remove_file / tokio remove_file are the removal primitives"]
@@ -165,6 +165,9 @@ def run(ctx):
                what="the spilling sort builds the external sort's keys without reading `%s` of its own sort keys: runs are sorted with the "
                     "requested %s but merged with a default, so the spilled result is ordered differently from the in-memory sort" % (fl[0], fl[0]),
                where=ms.loc())
+
+    # ---- R8 morsels tile the input
+    morsels_tile_the_input(ctx, P, "R8")
 
     # ---- R6 merging partial results covers what accumulation updates
     merge_covers_accumulation(ctx, P, "R6")
@@ -452,3 +455,51 @@ def merge_covers_accumulation(ctx, P, rule):
                 why = "decides `%s` through %s where accumulation goes through %s" % (k, sorted(mp[k]["helpers"]) or "no helper", sorted(acc[k]["helpers"]) or "no helper")
             ctx.ob(rule, inst, ok, what="%s::%s %s: merged partial results differ from sequential accumulation" % (tn, name, why), where=f.loc())
     ctx.floor(rule, n, 2, "mergeable partial-result types with accumulation sites")
+
+
+def morsels_tile_the_input(ctx, P, rule):
+    """Parallel execution hands every row to exactly one worker only if the morsels tile [0, total): generation walks
+    the range 0..total in steps of the morsel size and caps each end at total; a split hands the left half [start, p)
+    and the right half [p, end) with the very same p. Any other arithmetic on the bounds (a -1, a second +size) loses
+    or duplicates rows at morsel borders - for particular sizes only."""
+    sp = P.fn("Morsel::split_at")
+    sx = FlowCx(P, sp)
+    halves = []
+    for bi, b in enumerate(sp.blocks):
+        if b["cl"]:
+            continue
+        for pl, rv, ln in b["s"]:
+            if rv[0] == "agg" and rv[1] == "adt" and rv[2].endswith("parallel::morsel::Morsel"):
+                halves.append({n.strip('"'): frozenset(sx.tags(op)) for n, op in zip(rv[5], rv[4])} | {"_ln": ln})
+    ctx.floor(rule, len(halves), 2, "Morsel literals in split_at")
+    arith = lambda tg: {x for x in tg if x.startswith("bin:") or x.startswith("const:")}
+    if len(halves) >= 2:
+        a, b = halves[0], halves[1]
+        if "cell:Morsel.end_row" in a["end_row"]:
+            a, b = b, a
+        ok = a["end_row"] == b["start_row"] and not (arith(a["start_row"]) or arith(b["end_row"])) \
+            and "cell:Morsel.start_row" in a["start_row"] and "cell:Morsel.end_row" in b["end_row"]
+        ctx.ob(rule, "Morsel::split_at#halves-share-split-point", ok,
+               what="Morsel::split_at does not build [start, p) and [p, end) from the same p and the untouched outer bounds: rows at the "
+                    "split point are processed twice or not at all", where=sp.loc(a["_ln"]))
+    gm = P.fn("morsel::generate_morsels")
+    gx = FlowCx(P, gm)
+    names = {nm: l for l, nm in gm.names().items() if 1 <= l <= gm.argc}
+    tot, size = "param:%d" % names.get("total_rows", -1), "param:%d" % names.get("morsel_size", -1)
+    steps = [(bi, t) for bi, t in gm.calls() if callee_name(t).endswith("step_by") or (t.get("f") or "").endswith("Iterator::step_by")]
+    news = [(bi, t) for bi, t in gm.calls() if callee_name(t).endswith("Morsel::new")]
+    ctx.floor(rule, len(steps), 1, "stepping range in generate_morsels")
+    ctx.floor(rule, len(news), 1, "Morsel::new in generate_morsels")
+    for bi, t in steps:
+        r, st = gx.tags(t["args"][0]), gx.tags(t["args"][1])
+        ok = "agg:Range::Range" in r and "const:0" in r and tot in r and not any(x.startswith("bin:") for x in r) \
+            and st == {x for x in st if not x.startswith("bin:")} and size in st
+        ctx.ob(rule, "generate_morsels#range-0-total-step-size", ok,
+               what="generate_morsels does not walk exactly 0..total_rows in steps of morsel_size", where=gm.loc(t["line"]))
+    for bi, t in news:
+        s_, e_ = gx.tags(t["args"][2]), gx.tags(t["args"][3])
+        ok = not any(x.startswith("bin:") for x in s_) and "call:Iterator::step_by" in s_ \
+            and {x for x in e_ if x.startswith("bin:")} <= {"bin:AddWithOverflow", "bin:Add"} and "call:Ord::min" in e_ and tot in e_ and size in e_
+        ctx.ob(rule, "generate_morsels#end-is-start-plus-size-capped", ok,
+               what="a generated morsel does not span [start, min(start + morsel_size, total_rows)): neighbouring morsels overlap or leave a gap",
+               where=gm.loc(t["line"]))
